@@ -423,12 +423,9 @@ func (env *historyEnv) neighbours(t target, kind string) []string {
 		x := t
 		x.Patch, x.Query, x.AsDate, x.Rest = false, "", false, "Manifest.mpd"
 		x = x.with("patch", "").with("chunk", "").with("fault", "").with("session", "")
-		// generated subtitles in the session - but not together with a SegmentTimeline mode: on the
-		// checked tree such a session dies with a nil dereference in the session goroutine
-		// (sendMediaSegments -> generateTimelineEntries("timestpp-…")) and takes the process with it
-		if x.Opts["mode"] != "" {
-			x = x.with("timesubs", "")
-		} else if x.Opts["timesubs"] == "" {
+		// generated subtitles in the session (also together with a SegmentTimeline mode: the crash of
+		// such sessions was repaired by fix commit dc9fc5d)
+		if x.Opts["timesubs"] == "" {
 			x = x.with("timesubs", []string{"timesubsstpp_en,sv/", "timesubswvtt_en/"}[len(t.Family)%2])
 		}
 		lu := x.url()
